@@ -271,7 +271,7 @@ OPTIONAL_MONITORS = ("syndrome5",)
 
 
 def _valid(rng, n, df=None):
-    data = rng.getrandbits(n - 24)
+    data = rng.fill(n - 24)
     if df is not None:
         data = (data & ((1 << (n - 29)) - 1)) | (df << (n - 29))
     return bits.with_pi(data, n)
@@ -300,21 +300,21 @@ def cases(ctx):
     nrand = ctx.share(150000 if quick else 600000)
     for k in range(nrand):
         n = rng.choice((56, 112))
-        yield "exact", {"n": n, "x": "%X" % rng.getrandbits(n), "legacy": (k % 10 == 0),
+        yield "exact", {"n": n, "x": "%X" % rng.fill(n), "legacy": (k % 10 == 0),
                         "case": "lower" if k % 3 == 0 else "upper"}
     # frames whose parity-field text also occurs inside the payload (a text-level operation on the tail must not touch it)
     for k in range(ctx.share(6000 if quick else 60000)):
         n = rng.choice((56, 112))
-        hx = "%0*X" % (n // 4, rng.getrandbits(n))
+        hx = "%0*X" % (n // 4, rng.fill(n))
         p0 = rng.randrange(0, n // 4 - 11)
         hx = hx[:-6] + hx[p0:p0 + 6]
         yield "exact", {"n": n, "x": hx, "legacy": (k % 10 == 0), "case": "lower" if k % 3 == 0 else "upper", "echo": 1}
     # --- closure / linearity
     for k in range(ctx.share(20000 if quick else 80000)):
         n = rng.choice((56, 112))
-        yield "closure", {"n": n, "data": "%X" % rng.getrandbits(n - 24),
-                          "tails": [0, 0xFFFFFF, rng.getrandbits(24), rng.getrandbits(24)]}
-        yield "linear", {"n": n, "a": "%X" % rng.getrandbits(n), "b": "%X" % rng.getrandbits(n)}
+        yield "closure", {"n": n, "data": "%X" % rng.fill(n - 24),
+                          "tails": [0, 0xFFFFFF, rng.fill(24), rng.fill(24)]}
+        yield "linear", {"n": n, "a": "%X" % rng.fill(n), "b": "%X" % rng.fill(n)}
     # --- error detection, exhaustive by weight
     plan = []
     for n in (56, 112):
@@ -351,7 +351,7 @@ def cases(ctx):
                 if ctx.mine(i):
                     c = {"n": n, "kind": "burst", "L": L, "off": off, "valid": "%X" % _valid(rng, n)}
                     if L > Lex:
-                        c["interiors"] = [0, (1 << (L - 2)) - 1] + [rng.getrandbits(L - 2) for _ in range(nint)]
+                        c["interiors"] = [0, (1 << (L - 2)) - 1] + [rng.fill(L - 2) for _ in range(nint)]
                     yield "detect", c
                 i += 1
     # --- random weight-5 real executions on 112 bits
@@ -379,9 +379,9 @@ def cases(ctx):
             e |= 1 << p  # keep DF bits intact so that the frame stays DF17
         yield "checkmsg", {"frame": "%028X" % (v ^ e)}
         # corruption confined to the PI field: the remainder is the error itself (small and large values)
-        for e in (1, 2, 3, 1 << (k % 24), rng.getrandbits(24) | 1):
+        for e in (1, 2, 3, 1 << (k % 24), rng.fill(24) | 1):
             yield "checkmsg", {"frame": "%028X" % (v ^ e)}
         df = rng.choice((0, 4, 5, 11, 16, 20, 21))
         n = bits.df_len(df)
-        f = bits.downlink(df, rng.getrandbits(n - 29), n, rng.getrandbits(24), rng.randrange(80))
+        f = bits.downlink(df, rng.fill(n - 29), n, rng.fill(24), rng.randrange(80))
         yield "contract", {"frame": "%0*X" % (n // 4, f)}
